@@ -129,7 +129,14 @@ def run(ck):
                     pres = [('fasta-ref', [gen.fasta(names, seqs)]), ('wide-clustal-unwrapped', [render_clu(names, rows, W, 0)]),
                             ('wide-msf-unwrapped', [render_msf(names, rows, W, kind == 'protein')]),
                             ('wide-afa-unwrapped', [gen.fasta(names, rows, W)]), ('wide-fasta-4095', [gen.fasta(names, seqs, 4095)])]
+            if k == 0:
+                # corpus: the recorded finding C04-split-files-detected-differently (known_findings.json), so that it is reported as
+                # KNOWN-FINDING on every run and any OTHER dependence on the split is still a violation
+                names = ['A', 'B', 'C', 'D']; kind = 'dna'
+                seqs = ['AAAGTADTATAAGCGGCTTDCATGAACAGGGGTG', 'VHAGAAGVTAATASMHCAGCTGCTTGAACGGGAG', 'AAAGTTATAAGCTGGTTGAACAGTG', 'AAAGTASGAAGCTGCATCGAACAGGG']
+                pres = [('fasta-ref', [gen.fasta(names, seqs)]), ('split-2', [gen.fasta(names[:2], seqs[:2]), gen.fasta(names[2:], seqs[2:])])]
             ty = rng.choice([0, 1, 2, 5] if kind == 'dna' else [3, 4, 5])
+            if k == 0: ty = 5
             ids = []
             for pname, texts in pres:
                 paths = []
@@ -137,7 +144,7 @@ def run(ck):
                     p = os.path.join(tmp, 'g%d_%s_%d' % (k, pname.replace('%', ''), j))
                     open(p, 'wb').write(t.encode('latin-1')); paths.append(p)
                 rlines.append('readfiles ' + ' '.join(paths))
-                ids.append((pname, len(rlines) - 1, fr.add(texts, 'fasta', 1, ty)))
+                ids.append((pname, len(rlines) - 1, fr.add(texts, 'fasta', 1, ty), texts))
                 ck.count('presentation:' + pname.split('-')[0])
             groups.append((names, seqs, kind, ids))
         # malformed stream for the reader correspondence
@@ -165,25 +172,34 @@ def run(ck):
                 if not line.startswith('OK'): return None
                 f = dict(t.split('=', 1) for t in line.split() if '=' in t)
                 return (f['biotype'], [tuple(r.split(':')[:2]) for r in f['recs'].split(';')])
-            for pname, ridx, jidx in ids[1:]:
+            for pname, ridx, jidx, texts in ids[1:]:
                 if recs_of(ri[ridx]) != recs_of(ref_read):
-                    wit.append({'kind': 'read-differs-across-presentations', 'presentation': pname, 'names': names, 'seqs': seqs, 'reference_read': ref_read[:400], 'read': ri[ridx][:400]})
+                    w = {'kind': 'read-differs-across-presentations', 'presentation': pname, 'names': names, 'seqs': seqs, 'reference_read': ref_read[:400], 'read': ri[ridx][:400]}
+                    if pname.startswith('split') and ri[ridx].startswith('ERR') and ref_read.startswith('OK'):
+                        # known finding: kalign decides DNA/protein per input file and refuses to combine files it classified differently
+                        parts = [gen.parse_fasta(t)[1] for t in texts if t.strip()]
+                        dl = ck.run_lines(model, ['detect ' + ' '.join(gen.hexs(x) for x in part if x) for part in parts if any(part)])
+                        kinds = set(dict(t.split('=', 1) for t in r.split() if '=' in t).get('biotype') for r in dl)
+                        if '0' in kinds and '1' in kinds:
+                            w['signature_hint'] = 'split-files-detected-differently'
+                            w['per_file_detection'] = dl
+                    wit.append(w)
                 elif res[jidx]['text'] != ref_out:
                     wit.append({'kind': 'alignment-differs-across-presentations', 'presentation': pname, 'names': names, 'seqs': seqs,
                                 'reference_output': (ref_out or '')[:600], 'output': (res[jidx]['text'] or res[jidx]['status'])[:600]})
                 else:
                     ck.nontriv({'n': names[:2], 's': seqs[:2], 'p': pname})
         if rlines:
-            ck.sample({'presentation': groups[0][3][4][0], 'implementation_read': ri[groups[0][3][4][1]][:300], 'model_read': rm[groups[0][3][4][1]][:300]})
+            g1 = groups[1] if len(groups) > 1 else groups[0]; i1 = min(4, len(g1[3]) - 1); ck.sample({'presentation': g1[3][i1][0], 'implementation_read': ri[g1[3][i1][1]][:300], 'model_read': rm[g1[3][i1][1]][:300]})
     finally:
         fr.close(); shutil.rmtree(tmp, ignore_errors=True)
     seen = {}
     for w in wit:
         key = (w['kind'], w['presentation'].split('-')[0])
         seen[key] = seen.get(key, 0) + 1
-        if seen[key] <= 1:
-            ck.violation('witness', w)
-    if not wit:
+        if seen[key] <= 1 or w.get('signature_hint'):
+            ck.violation('witness', w, signature=w.get('signature_hint'))
+    if not [w for w in wit if not w.get('signature_hint')]:
         if not ok:
             ck.violation('proof', {'what_no_longer_checks': ck.proof['failed']}, nofail=True)
         elif dis:
